@@ -55,7 +55,91 @@ func c38Exec(out *verifx.Out, side string, cs *s3hCase, line string) {
 			out.Line("res panic %s", verifx.HexS(fmt.Sprint(p)))
 		}
 	}()
-	cs.exec(line)
+	if !c38ExecPaged(cs, line) {
+		cs.exec(line)
+	}
+}
+
+// c38ExecPaged runs the two operations the shared history language lacks: listings read page by
+// page with a small MaxKeys, following the markers the storage returns.
+//   op lsvp <b> <n>   ListObjectVersions, MaxKeys n, continued with NextKeyMarker/NextVersionIDMarker
+//   op lsp <b> <n>    ListObjects, MaxKeys n, continued with StartAfter = last key of the page
+// res ok <page>|<page>|…   (entries as in lsv / ls; "~" for an empty page)
+func c38ExecPaged(c *s3hCase, line string) bool {
+	t := strings.Fields(line)
+	if len(t) < 4 || (t[1] != "lsvp" && t[1] != "lsp") {
+		return false
+	}
+	c.out.Line("%s", line)
+	b := storage.MustNewBucketName("bkt-" + t[2])
+	n := atoi32(t[3])
+	var pages []string
+	if t[1] == "lsvp" {
+		var keyMarker, versionMarker *string
+		for page := 0; page < 64; page++ {
+			res, err := c.st.ListObjectVersions(c.ctx, b, storage.ListObjectVersionsOptions{MaxKeys: n, KeyMarker: keyMarker, VersionIDMarker: versionMarker})
+			if err != nil {
+				c.resErr(err)
+				return true
+			}
+			items := []string{}
+			for _, v := range res.Versions {
+				vid := v.VersionID
+				items = append(items, fmt.Sprintf("%s:%s:%d:%d:%d:%d:%s", v.Key.String(), c.vidOut(&vid), b2i(v.IsLatest), b2i(v.IsDeleteMarker),
+					v.Size, v.LastModified.UnixNano(), optS(v.StorageClass)))
+			}
+			pages = append(pages, joinOr(items))
+			if !res.IsTruncated {
+				break
+			}
+			keyMarker, versionMarker = res.NextKeyMarker, res.NextVersionIDMarker
+		}
+	} else {
+		var startAfter *string
+		for page := 0; page < 64; page++ {
+			res, err := c.st.ListObjects(c.ctx, b, storage.ListObjectsOptions{MaxKeys: n, StartAfter: startAfter})
+			if err != nil {
+				c.resErr(err)
+				return true
+			}
+			items := []string{}
+			for _, o := range res.Objects {
+				items = append(items, fmt.Sprintf("%s:%d:%s:%s", o.Key.String(), o.Size, o.ETag, optS(o.StorageClass)))
+			}
+			pages = append(pages, joinOr(items))
+			if !res.IsTruncated || len(res.Objects) == 0 {
+				break
+			}
+			last := res.Objects[len(res.Objects)-1].Key.String()
+			startAfter = &last
+		}
+	}
+	c.out.Line("res ok %s", strings.Join(pages, "|"))
+	return true
+}
+
+// c38Extra draws, now and then, an operation the shared generator produces rarely or not at all:
+// paged listings and a conditional delete addressed by version id.
+func c38Extra(r *verifx.Rng, g *s3hGen) (string, bool) {
+	b := g.bk()
+	switch r.Intn(16) {
+	case 0, 1:
+		return fmt.Sprintf("op lsvp %s %d", b, 1+r.Intn(3)), true
+	case 2:
+		return fmt.Sprintf("op lsp %s %d", b, 1+r.Intn(2)), true
+	case 3, 4:
+		k := g.key()
+		vid := "null"
+		if n := len(g.c.vids); n > 0 && r.Chance(3, 4) {
+			vid = fmt.Sprintf("v%d", r.Intn(n))
+		}
+		im := verifx.Pick(r, []string{"bogus", "bogus", "*"})
+		if e, ok := g.c.lastEtag[b+"/"+k]; ok && r.Chance(1, 2) {
+			im = e
+		}
+		return fmt.Sprintf("op del %s %s vid=%s im=%s", b, k, vid, im), true
+	}
+	return "", false
 }
 
 func (p *c38Pair) both(line string) {
@@ -159,6 +243,15 @@ func c38Directed() []c38Dir {
 	}
 }
 
+// c38Sweep is the shared full-state sweep plus page-by-page listings of both buckets.
+func c38Sweep(g *s3hGen) []string {
+	out := g.sweep()
+	for _, b := range []string{"b0", "b1"} {
+		out = append(out, "op lsvp "+b+" 1", "op lsvp "+b+" 2", "op lsp "+b+" 1")
+	}
+	return out
+}
+
 func runC38(args []string) {
 	f := verifx.ParseFlags("c38", args, 14, 90)
 	out := verifx.NewOut()
@@ -218,15 +311,18 @@ func runC38(args []string) {
 					continue
 				}
 				p.both(line)
+				if extra, ok := c38Extra(r, g); ok {
+					p.both(extra)
+				}
 				if i%20 == 19 {
 					out.Line("checkpoint")
-					for _, l := range g.sweep() {
+					for _, l := range c38Sweep(g) {
 						p.both(l)
 					}
 				}
 			}
 			out.Line("checkpoint")
-			for _, l := range g.sweep() {
+			for _, l := range c38Sweep(g) {
 				p.both(l)
 			}
 		}
